@@ -17,7 +17,7 @@ namespace iosim {
 
 static const FormatApi& api_of(const std::string& f) {
     if (f == "json") return json_api(); if (f == "csv") return csv_api(); if (f == "cbor") return cbor_api();
-    if (f == "msgpack") return msgpack_api(); if (f == "ubjson") return ubjson_api(); return bson_api();
+    if (f == "msgpack") return msgpack_api(); if (f == "ubjson") return ubjson_api(); if (f == "toon") return toon_api(); return bson_api();
 }
 static const char* const formats[] = {"json", "json", "csv", "cbor", "msgpack", "ubjson", "bson"};
 
@@ -100,6 +100,7 @@ MVal generate(const std::string& profile, uint64_t seed, uint64_t idx) {
     plan.set("engine", MVal::str("iosim")); plan.set("check", MVal::str(profile));
     plan.set("seed", MVal::uinteger(seed)); plan.set("idx", MVal::uinteger(idx));
     std::string fmt = formats[idx % (sizeof formats / sizeof formats[0])];
+    if (profile == "c05" && idx % 16 == 15) fmt = "toon";      // C05 names TOON among the decoders (reader and decoder only: there is no TOON cursor)
     plan.set("format", MVal::str(fmt));
     const FormatApi& api = api_of(fmt);
     if (profile == "c10") {
@@ -156,7 +157,7 @@ static std::vector<std::string> modes_of(const MVal& plan, const FormatApi& api)
     std::vector<std::string> m;
     if (plan.has("modes")) { for (auto& x : plan.geta("modes")) if (x.k == MVal::Str) m.push_back(x.s); return m; }
     m = {"reader", "decoder", "cursor", "readto", "filter", "filterref", "iter"};
-    (void)api;
+    if (std::string(api.name) == "toon") m = {"reader", "decoder"};
     return m;
 }
 
@@ -180,7 +181,7 @@ static void expand_sweep(size_t L, bool text, std::vector<Delivery>& out, std::v
 static bool bound_excluded(const std::string& fmt, const std::string& B) {
     // json_source_adaptor / text adaptors sniff the encoding from the first four bytes of the FIRST chunk:
     // the property's quantifier is BOM-less text, so such inputs are outside it (DESIGN.md 4.5).
-    if (fmt != "json" && fmt != "csv") return false;
+    if (fmt != "json" && fmt != "csv" && fmt != "toon") return false;
     for (size_t i = 0; i < B.size() && i < 4; ++i) { unsigned char c = (unsigned char)B[i]; if (c == 0x00 || c == 0xEF || c == 0xFE || c == 0xFF || c == 0xBB || c == 0xBF) return true; }
     return false;
 }
